@@ -232,8 +232,9 @@ class RefDEVS:
         self.rep_state = STARTED
         self.pause_requested = False
         nxt = min(self.pending) if self.pending else None
+        self.last_step_failed = False
         if nxt is not None and nxt[0] <= self.end:
-            self._execute(nxt)
+            self.last_step_failed = self._execute(nxt)
         self.step_boundary = nxt is None or nxt[0] > self.end
         if self.ended_by_handler:
             self._end()
